@@ -297,6 +297,7 @@ struct MFile {
 	bool             valid    = false;
 	int              arch     = 0;      // 0 text, 1 binary, 2 xml
 	bool             is_array = false;  // an owning array (extensions + elements) or a view (elements only)
+	int              base     = 0;      // index base of every dimension of the saved array (0, or 1 for the re-indexed variant)
 	int              D        = 0;
 	int              n[MAXD]{};
 	std::vector<i64> v;
